@@ -630,3 +630,187 @@ func sortedKeys[M ~map[string]V, V any](m M) []string {
 	sort.Strings(ks)
 	return ks
 }
+
+// ---------------------------------------------------------------------------------------------
+// resolution of captured variables: go/ssa keeps every variable that a closure refers to as a
+// heap cell (Alloc in the declaring function, FreeVar in the closure).  resolve() follows loads of
+// such cells to the value stored, when the cell has exactly one store.
+
+// makeClosureOf finds the MakeClosure instruction that creates closure fn in its parent.
+func makeClosureOf(fn *ssa.Function) *ssa.MakeClosure {
+	par := fn.Parent()
+	if par == nil {
+		return nil
+	}
+	for _, b := range par.Blocks {
+		for _, in := range b.Instrs {
+			if mc, ok := in.(*ssa.MakeClosure); ok && mc.Fn == fn {
+				return mc
+			}
+		}
+	}
+	return nil
+}
+
+// rootCell maps a FreeVar (or Alloc) to the Alloc that declares the variable.
+func rootCell(addr ssa.Value) ssa.Value {
+	for i := 0; i < 8; i++ {
+		fv, ok := addr.(*ssa.FreeVar)
+		if !ok {
+			return addr
+		}
+		fn := fv.Parent()
+		mc := makeClosureOf(fn)
+		if mc == nil {
+			return addr
+		}
+		idx := -1
+		for j, f := range fn.FreeVars {
+			if f == fv {
+				idx = j
+			}
+		}
+		if idx < 0 || idx >= len(mc.Bindings) {
+			return addr
+		}
+		addr = mc.Bindings[idx]
+	}
+	return addr
+}
+
+// cellAliases returns the Alloc and every FreeVar (in nested closures) bound to it.
+func cellAliases(cell ssa.Value) []ssa.Value {
+	out := []ssa.Value{cell}
+	for i := 0; i < len(out); i++ {
+		c := out[i]
+		refs := c.Referrers()
+		if refs == nil {
+			continue
+		}
+		for _, r := range *refs {
+			mc, ok := r.(*ssa.MakeClosure)
+			if !ok {
+				continue
+			}
+			fn := mc.Fn.(*ssa.Function)
+			for j, b := range mc.Bindings {
+				if b == c && j < len(fn.FreeVars) {
+					out = append(out, fn.FreeVars[j])
+				}
+			}
+		}
+	}
+	return out
+}
+
+// cellStores lists every store to the variable (through any alias).
+func cellStores(cell ssa.Value) []*ssa.Store {
+	var out []*ssa.Store
+	for _, a := range cellAliases(rootCell(cell)) {
+		if a.Referrers() == nil {
+			continue
+		}
+		for _, r := range *a.Referrers() {
+			if st, ok := r.(*ssa.Store); ok && st.Addr == a {
+				out = append(out, st)
+			}
+		}
+	}
+	return out
+}
+
+// cellLoads lists every load of the variable (through any alias).
+func cellLoads(cell ssa.Value) []*ssa.UnOp {
+	var out []*ssa.UnOp
+	for _, a := range cellAliases(rootCell(cell)) {
+		if a.Referrers() == nil {
+			continue
+		}
+		for _, r := range *a.Referrers() {
+			if u, ok := r.(*ssa.UnOp); ok && u.Op == token.MUL && u.X == a {
+				out = append(out, u)
+			}
+		}
+	}
+	return out
+}
+
+// resolve follows conversions and loads of single-assignment variable cells.
+func resolve(v ssa.Value) ssa.Value {
+	for i := 0; i < 16; i++ {
+		switch x := v.(type) {
+		case *ssa.ChangeType:
+			v = x.X
+			continue
+		case *ssa.MakeInterface:
+			v = x.X
+			continue
+		case *ssa.ChangeInterface:
+			v = x.X
+			continue
+		case *ssa.UnOp:
+			if x.Op != token.MUL {
+				return v
+			}
+			switch x.X.(type) {
+			case *ssa.Alloc, *ssa.FreeVar:
+				if st := initStore(x.X); st != nil {
+					v = st.Val
+					continue
+				}
+			}
+			return v
+		}
+		return v
+	}
+	return v
+}
+
+// sameVar: do a and b denote the same run-time value (same SSA value, or loads of one variable
+// that is assigned once)?
+func sameVar(a, b ssa.Value) bool {
+	a, b = resolve(a), resolve(b)
+	if a == b {
+		return true
+	}
+	la, ok1 := isLoad(a)
+	lb, ok2 := isLoad(b)
+	if ok1 && ok2 {
+		ra, rb := rootCell(la), rootCell(lb)
+		if ra == rb {
+			if _, isAlloc := ra.(*ssa.Alloc); isAlloc {
+				return true
+			}
+		}
+		ka, kb := cellKey(la), cellKey(lb)
+		return ka != "" && ka == kb && la.Parent() == lb.Parent()
+	}
+	return false
+}
+
+// inLoop reports whether the instruction's block lies on a CFG cycle.
+func inLoop(in ssa.Instruction) bool {
+	b := in.Block()
+	return canReachNonTrivially(b, b)
+}
+
+
+// initStore: the variable behind cell is assigned exactly once, by a store that initialises it
+// right where it is declared (same function and block as its Alloc: parameters, `x := v`).  A
+// variable declared without a value and assigned later keeps its zero value for earlier loads and is
+// therefore not resolved.
+func initStore(cell ssa.Value) *ssa.Store {
+	root := rootCell(cell)
+	al, ok := root.(*ssa.Alloc)
+	if !ok {
+		return nil
+	}
+	st := cellStores(root)
+	if len(st) != 1 {
+		return nil
+	}
+	if st[0].Parent() != al.Parent() || st[0].Block() != al.Block() {
+		return nil
+	}
+	return st[0]
+}
